@@ -311,6 +311,23 @@ def theorem_status(prop, prop_file):
     return st
 
 
+def coqchk(prop_file, extra_modules=()):
+    """Thorough tier: re-check the compiled property file and everything it depends on with the independent
+    checker and report the axioms it relies on (coqchk -o)."""
+    mods = ["Xds." + prop_file[:-2].replace("/", ".")] + list(extra_modules)
+    with Lock("coqchk"):
+        rc, out = sh(["timeout", "3000", "coqchk", "-silent", "-o", "-Q", COQ, "Xds"] + mods, cwd=COQ, timeout=3100)
+    m = re.search(r"\* Axioms:(.*?)\n\s*\n\* Constants/Inductives relying on type-in-type:(.*?)\n\s*\n\* Constants/Inductives relying on unsafe \(co\)fixpoints:(.*?)\n\s*\n\* Inductives whose positivity is assumed:(.*?)(\n\s*\n|$)", out, re.S)
+    summary = {"modules": mods, "rc": rc}
+    if m:
+        summary.update({"axioms": " ".join(m.group(1).split()), "type_in_type": " ".join(m.group(2).split()),
+                        "unsafe_fixpoints": " ".join(m.group(3).split()), "assumed_positivity": " ".join(m.group(4).split())})
+    else:
+        summary["output_tail"] = out[-800:]
+    ok = rc == 0 and m is not None and all(summary[k] == "<none>" for k in ("axioms", "type_in_type", "unsafe_fixpoints", "assumed_positivity"))
+    return ok, summary
+
+
 def theorems_closed(st):
     if not st["compiled"] or st["forbidden"]:
         return False
@@ -362,6 +379,9 @@ def write_evidence(prop, tier, seed, st, coverage, wall, violations, assumptions
         cov["proof_files"] = st["depends_on"]
         cov["forbidden_constructs_found"] = st["forbidden"]
         cov["files_not_compiled"] = st["failed_files"]
+        if st.get("coqchk"):
+            cov["coqchk"] = st["coqchk"]
+            cov["checker_cmd"] += "; coqchk -silent -o -Q /verif/coq Xds " + " ".join(st["coqchk"]["modules"])
     ev = {"property_id": prop, "tier": tier, "seed": seed, "level": "proof", "coverage": cov,
           "assumptions": assumptions or [], "wall_s": round(wall, 2), "violations": violations}
     if extra:
